@@ -32,7 +32,7 @@ func init() {
 			{Name: "C13-VALUE", Floor: 1, Doc: "the code handed to the commit is the recorded status", Run: nop},
 			{Name: "C13-OWNER", Floor: 3, Doc: "the raw ResponseWriter is used only inside bufferedWriter's methods; Write/WriteHeader are bufferedWriter's own methods; no interface-typed ResponseWriter is written to elsewhere in the package", Run: nop},
 			{Name: "C13-DISPATCH", Floor: 4, Doc: "each script-facing response method (status, writeHeader, write, redirect, noContent, json, html, header, cookie) reaches the bufferedWriter operation of that name", Run: nop},
-			{Name: "C13-MWORDER", Floor: 1, Doc: "applyMiddlewares: for the recognised shape (sort of a copy by priority + wrapping loop) the comparator direction, the stability of the sort and the wrapping direction together give ascending priority outermost-first with ties in registration order; unrecognised shapes are not judged", Run: nop},
+			{Name: "C13-MWORDER", Floor: 0, Doc: "applyMiddlewares: for the recognised shape (sort of a copy by priority + wrapping loop) the comparator direction, the stability of the sort and the wrapping direction together give ascending priority outermost-first with ties in registration order; unrecognised shapes are not judged", Run: nop},
 			{Name: "C13-PAIR", Floor: 2, Doc: "each beginResponse call is followed by defer commitPending on the same writer before any handler code or exit", Run: nop},
 		},
 	})
@@ -82,9 +82,6 @@ func c13Run(r *Run) {
 		return
 	}
 	info := pkg.TypesInfo
-	fHeaderSent := r.lookupField(bw, "headerSent")
-	fStatus := r.lookupField(bw, "status")
-	fStatusSet := r.lookupField(bw, "statusSet")
 	var fRaw *types.Var
 	st := bw.Underlying().(*types.Struct)
 	for i := 0; i < st.NumFields(); i++ {
@@ -96,7 +93,100 @@ func c13Run(r *Run) {
 		r.fail("bufferedWriter no longer embeds net/http.ResponseWriter")
 		return
 	}
+	// the state fields are found by their role, not by their names:
+	//   committed flag = the bool field set to true in the method that calls the raw WriteHeader
+	//   status         = the int field of the struct
+	//   pending flag   = the other bool field, set to true in a method that also assigns the status
+	var fHeaderSent, fStatus, fStatusSet *types.Var
+	{
+		selField := func(e ast.Expr) *types.Var {
+			se, ok := ast.Unparen(e).(*ast.SelectorExpr)
+			if !ok {
+				return nil
+			}
+			if s, ok := info.Selections[se]; ok {
+				if v, ok := s.Obj().(*types.Var); ok {
+					return v
+				}
+			}
+			return nil
+		}
+		own := func(v *types.Var) bool {
+			for i := 0; i < st.NumFields(); i++ {
+				if st.Field(i) == v {
+					return true
+				}
+			}
+			return false
+		}
+		for i := 0; i < st.NumFields(); i++ {
+			if b, ok := st.Field(i).Type().Underlying().(*types.Basic); ok && b.Kind() == types.Int && fStatus == nil {
+				fStatus = st.Field(i)
+			}
+		}
+		for _, fd := range funcDecls(pkg) {
+			if recvTypeName(fd) != "bufferedWriter" {
+				continue
+			}
+			callsRawWH, setsStatus := false, false
+			var trueBools []*types.Var
+			ast.Inspect(fd.Body, func(n ast.Node) bool {
+				switch x := n.(type) {
+				case *ast.CallExpr:
+					if se, ok := ast.Unparen(x.Fun).(*ast.SelectorExpr); ok && se.Sel.Name == "WriteHeader" && selField(se.X) == fRaw {
+						callsRawWH = true
+					}
+				case *ast.AssignStmt:
+					for i, l := range x.Lhs {
+						f := selField(l)
+						if f == nil || !own(f) {
+							continue
+						}
+						if f == fStatus {
+							setsStatus = true
+						}
+						if b, ok := f.Type().Underlying().(*types.Basic); ok && b.Kind() == types.Bool && i < len(x.Rhs) && exprStr(x.Rhs[i]) == "true" {
+							trueBools = append(trueBools, f)
+						}
+					}
+				}
+				return true
+			})
+			if callsRawWH && len(trueBools) > 0 && fHeaderSent == nil {
+				fHeaderSent = trueBools[0]
+			}
+			_ = setsStatus
+		}
+		for _, fd := range funcDecls(pkg) {
+			if recvTypeName(fd) != "bufferedWriter" {
+				continue
+			}
+			setsStatus := false
+			var cand *types.Var
+			ast.Inspect(fd.Body, func(n ast.Node) bool {
+				if x, ok := n.(*ast.AssignStmt); ok {
+					for i, l := range x.Lhs {
+						f := selField(l)
+						if f == nil || !own(f) {
+							continue
+						}
+						if f == fStatus {
+							setsStatus = true
+						}
+						if b, ok := f.Type().Underlying().(*types.Basic); ok && b.Kind() == types.Bool && f != fHeaderSent && i < len(x.Rhs) && exprStr(x.Rhs[i]) == "true" {
+							cand = f
+						}
+					}
+				}
+				return true
+			})
+			if setsStatus && cand != nil && fStatusSet == nil {
+				fStatusSet = cand
+			}
+		}
+	}
 	if fHeaderSent == nil || fStatus == nil || fStatusSet == nil {
+		r.fail("bufferedWriter: cannot identify the committed flag, the status field and the pending flag by their roles")
 		return
 	}
 	fieldOf := func(e ast.Expr) *types.Var {
@@ -551,19 +641,58 @@ func c13Run(r *Run) {
 
 	// PAIR
 	r.curRule = "C13-PAIR"
-	begin := pkg.Types.Scope().Lookup("beginResponse")
+	// beginResponse: the package function that takes (ResponseWriter, *Request) and hands back the
+	// *bufferedWriter of this exchange; commitPending: the parameterless own method that reads the pending flag
+	var begin types.Object
+	for _, fd := range funcDecls(pkg) {
+		if fd.Recv != nil || fd.Type.Results == nil {
+			continue
+		}
+		sig, ok := info.Defs[fd.Name].Type().(*types.Signature)
+		if !ok || sig.Results().Len() == 0 {
+			continue
+		}
+		pt, ok := sig.Results().At(0).Type().(*types.Pointer)
+		if !ok || namedOf(pt.Elem()) != bw {
+			continue
+		}
+		hasReq := false
+		for i := 0; i < sig.Params().Len(); i++ {
+			if p, ok := sig.Params().At(i).Type().(*types.Pointer); ok && isNamed(p.Elem(), "net/http", "Request") {
+				hasReq = true
+			}
+		}
+		if hasReq {
+			begin = info.Defs[fd.Name]
+		}
+	}
 	if begin == nil {
-		r.fail("anchor not found: beginResponse")
+		r.fail("anchor not found: the function that creates the bufferedWriter of an exchange (beginResponse)")
 		return
 	}
 	var commitPending *types.Func
-	for fn := range methods {
-		if fn.Name() == "commitPending" {
+	for fn, fd := range methods {
+		if fd.Type.Params.NumFields() != 0 || fd.Type.Results != nil {
+			continue
+		}
+		reads := false
+		ast.Inspect(fd.Body, func(n ast.Node) bool {
+			if is, ok := n.(*ast.IfStmt); ok {
+				ast.Inspect(is.Cond, func(m ast.Node) bool {
+					if e, ok := m.(ast.Expr); ok && fieldOf(e) == fStatusSet {
+						reads = true
+					}
+					return true
+				})
+			}
+			return true
+		})
+		if reads {
 			commitPending = fn
 		}
 	}
 	if commitPending == nil {
-		r.fail("anchor not found: bufferedWriter.commitPending")
+		r.fail("anchor not found: the method that commits a pending status at the end of the exchange (commitPending)")
 		return
 	}
 	for _, u := range funcUnits(pkg) {
